@@ -58,7 +58,7 @@ def families(depth):
                 ('rule', 'start', None, ('choice', [('seq', [('ref', 'X'), ('ref', 'T'), ('lit', '!')]),
                                                    ('seq', [('ref', 'X'), ('ref', 'T'), ('lit', '?')])]))])
     # an entry made long ago (X at 0) is needed again after many other entries were made
-    out.append(('old-entry', g5, ['b' + 'a' * n + '?' for n in (1, 5, 70, 200, 1000)]))
+    out.append(('old-entry', g5, ['b' + 'a' * n + '?' for n in (1, 5, 70, 200, 1000, 6000, 20000 if depth <= 12 else 100000)]))
     return out
 
 
